@@ -1,4 +1,6 @@
 import Aurora.Lemmas.Localstore
+import Aurora.Lemmas.LocalstoreCS
+import Aurora.Lemmas.LocalstoreBatch
 /-!
 C11 — Local store returns exactly what was stored (garbage collection out of reach: no `gcSelect`/
 `gcEvict` in the histories considered; the capacity premise of DESIGN §6 is therefore not needed by
@@ -127,5 +129,130 @@ theorem C11_batch_reqpin_bookkeeping_counterexample :
     bookkeeping (step po0c (step po0c c0 (.put .request (some 1) [(1, [])])) (.put .requestPin (some 1) [(2, []), (3, [])]))
     ≠ bookkeeping (runOpsC (step po0c c0 (.put .request (some 1) [(1, [])]))
         [.put .requestPin (some 1) [(2, [])], .put .requestPin (some 1) [(3, [])]]) := by decide
+
+/-! ## `present_iff` over histories
+
+The reference chunk set (`ChunkSet := Addr → Option (Bytes × Nat)`, `Lemmas/LocalstoreCS.lean`) is a fold
+over the *observed* history — every operation together with whether it reported success:
+`specFrom ∅ (traceH po s₀ ops)`, with `specStep` = `specPut` (an absent address of the call is stored with
+the bytes of its first occurrence in the call, pin count 1 in the pinning modes; a present chunk keeps its
+bytes — the first put wins — and `ModePutUploadPin` pins it again), `specSet` (remove deletes a chunk with
+pin count ≤ 1 and otherwise only lowers the pin count; pin/unpin raise/lower it; sync nothing), identity for
+every lookup, clock/capacity change and reopen, and identity for any operation that reported an error.
+"Garbage collection out of reach" is the explicit premise `gcQuietH`: a collection run is only ever
+started in a state whose cached-chunk counter is within the target (then it ends at once). -/
+
+theorem C11_absCS_eq_csOf (db : Db) : absCS db = csOf db := by
+  funext a
+  simp [absCS, csOf, bget, pget, Option.map_map, Function.comp_def]
+
+/-- `present_iff`: for every operation list (all put modes single or batched, with/without root
+context, gets, has, all set modes incl. pin/unpin/remove, reopen, clock and capacity changes) from the
+empty store, with garbage collection out of reach, the store's chunk set equals the reference chunk set
+of the observed history.  Hence `Has` answers exactly "put and not removed since" (removal of a pinned
+chunk only decrements its pin counter), `Has(pin)` exactly "pin count > 0", and `Get` (sync, lookup,
+request; any root context) returns the bytes of the put that stored the chunk, or not-found. -/
+theorem C11_present_iff (po : Addr → Nat) (cap : Nat) (ops : List Op)
+    (hq : gcQuietH po (init cap) ops = true) :
+    (∀ a, absCS (runH po (init cap) ops).db a = specFrom (fun _ => none) (traceH po (init cap) ops) a) ∧
+    (∀ a, has (runH po (init cap) ops) .chunk a =
+        .bool (specFrom (fun _ => none) (traceH po (init cap) ops) a).isSome) ∧
+    (∀ a, has (runH po (init cap) ops) .pin a =
+        .bool (match specFrom (fun _ => none) (traceH po (init cap) ops) a with
+               | some (_, p) => decide (p > 0)
+               | none => false)) ∧
+    (∀ a r m, m = .sync ∨ m = .lookup ∨ m = .request →
+        (get (runH po (init cap) ops) m r a).out =
+          match specFrom (fun _ => none) (traceH po (init cap) ops) a with
+          | some (d, _) => .chunk d
+          | none => .err .notFound) := by
+  obtain ⟨hI, _, hcs⟩ := hist_refines po ops (init cap) rfl (pinInv_init cap) hq
+  rw [csOf_init] at hcs
+  have habs : ∀ a, absCS (runH po (init cap) ops).db a =
+      specFrom (fun _ => none) (traceH po (init cap) ops) a := by
+    intro a; rw [C11_absCS_eq_csOf, hcs]
+  refine ⟨habs, ?_, ?_, ?_⟩
+  · intro a
+    rw [C11_has_iff_present, habs]
+  · intro a
+    rw [← habs, C11_absCS_eq_csOf]
+    simp only [has, csOf]
+    cases hp : pget a (runH po (init cap) ops).db with
+    | none =>
+      have : SMap.has a (runH po (init cap) ops).db.pin = false := by
+        simp [SMap.has, show SMap.get a (runH po (init cap) ops).db.pin = none from hp]
+      rw [this]
+      cases bget a (runH po (init cap) ops).db <;> simp
+    | some c =>
+      obtain ⟨hc, hb⟩ := hI a c hp
+      have : SMap.has a (runH po (init cap) ops).db.pin = true := by
+        simp [SMap.has, show SMap.get a (runH po (init cap) ops).db.pin = some c from hp]
+      rw [this]
+      cases hbb : bget a (runH po (init cap) ops).db with
+      | none => simp [hbb] at hb
+      | some d => simp; omega
+  · intro a r m hm
+    rw [← habs]
+    rcases hm with hm | hm | hm
+    · exact C11_get_exact _ r a m (Or.inl hm)
+    · exact C11_get_exact _ r a m (Or.inr hm)
+    · subst hm; exact C11_get_request_exact _ r a
+
+/-- non-vacuity of the premise, on a history with batched and pinning puts, a removal of a pinned chunk
+and an idle collection attempt; the reference says: chunk 1 is still stored (pin count 1 after one
+removal), chunk 2 is gone, chunk 3 holds the bytes of its first put -/
+example :
+    let ops : List Op := [.put .uploadPin none [(1, [7]), (2, [8])], .set .pin none [1], .put .request (some 3) [(3, [9])],
+      .put .upload none [(3, [10])], .set .remove none [1, 2], .gcSelect, .get .request none 3]
+    gcQuietH po0c c0 ops = true ∧
+    specFrom (fun _ => none) (traceH po0c c0 ops) 1 = some ([7], 1) ∧
+    specFrom (fun _ => none) (traceH po0c c0 ops) 2 = none ∧
+    specFrom (fun _ => none) (traceH po0c c0 ops) 3 = some ([9], 0) := by decide
+
+/-! ## batched = one at a time, on the chunk-set abstraction, outside the known-finding shapes -/
+
+/-- the guard of `C11_batch_eq_sequential_abstract_partial`: the batched call succeeds (excludes
+`batch-aborts-where-sequential-stores`), and a `ModePutUploadPin` batch lists every address once (excludes
+`batch-dup-pins-once`; a duplicate in a `ModePutRequestPin` batch is harmless — the second single call finds
+the chunk present and does not pin it again). -/
+def C11_batchGuard (po : Addr → Nat) (s : State) (m : PutMode) (r : Option Addr) (chs : List (Addr × Bytes)) : Bool :=
+  batchGuard po s m r chs
+
+/-- `batch_eq_sequential_abstract` (partial — guard `C11_batchGuard`): in every state whose pin entries are
+positive and belong to stored chunks (`PinInv`; every state reachable with garbage collection out of reach,
+`C11_pinInv_histories`), for every mode, root context and chunk list (duplicates included), the batched `Put`
+and the same chunks put one call at a time reach states equal on `Addr ↦ (bytes, pin count)`.
+Missing for the full clause: the two excluded shapes, refuted by
+`C11_batch_eq_sequential_abstract_counterexample` and `C11_batch_dup_pin_counterexample`. -/
+theorem C11_batch_eq_sequential_abstract_partial (po : Addr → Nat) (s : State) (m : PutMode) (r : Option Addr)
+    (chs : List (Addr × Bytes)) (hI : PinInv s.db) (hg : C11_batchGuard po s m r chs = true) :
+    ∀ a, absCS (step po s (.put m r chs)).db a =
+         absCS (chs.foldl (fun t c => step po t (.put m r [c])) s).db a := by
+  intro a
+  have := batch_eq_seq po s m r chs hI hg
+  rw [C11_absCS_eq_csOf, C11_absCS_eq_csOf, this]
+  rfl
+
+/-- the state premise of the previous theorem holds after every history with garbage collection out of reach -/
+theorem C11_pinInv_histories (po : Addr → Nat) (cap : Nat) (ops : List Op)
+    (hq : gcQuietH po (init cap) ops = true) : PinInv (runH po (init cap) ops).db :=
+  (hist_refines po ops (init cap) rfl (pinInv_init cap) hq).1
+
+/-- the same in the form of `C11_batch_eq_sequential_abstract_full` (`absEq` over the witness universe) -/
+theorem C11_batch_eq_sequential_absEq_partial (s : State) (m : PutMode) (r : Option Addr)
+    (chs : List (Addr × Bytes)) (hI : PinInv s.db) (hg : C11_batchGuard po0c s m r chs = true) :
+    absEq (step po0c s (.put m r chs)) (chs.foldl (fun t c => step po0c t (.put m r [c])) s) = true := by
+  simp only [absEq, List.all_eq_true, beq_iff_eq]
+  intro a _
+  exact C11_batch_eq_sequential_abstract_partial po0c s m r chs hI hg a
+
+/-- the guard is false on both counterexample shapes … -/
+example : C11_batchGuard po0c c0 .request (some 1) [(1, []), (2, [])] = false ∧
+    C11_batchGuard po0c c0 .uploadPin none [(1, []), (1, [])] = false := by decide
+/-- … and true on batches with a root context, with duplicates, and in the pinning modes (non-vacuity) -/
+example : C11_batchGuard po0c (step po0c c0 (.put .request (some 1) [(1, [])])) .request (some 1) [(2, []), (3, []), (2, [5])] = true ∧
+    C11_batchGuard po0c c0 .requestPin none [(1, []), (1, [])] = true ∧
+    C11_batchGuard po0c c0 .uploadPin (some 4) [(1, []), (2, [])] = true ∧
+    PinInv c0.db := ⟨by decide, by decide, by decide, pinInv_init _⟩
 
 end Aurora.Localstore
